@@ -15,6 +15,7 @@ from typing import Dict, List, Optional
 from .. import gf2
 from ..astutil import Inliner, assignments, attr_chain, call_name, const_value, match, returns_of, set_parents, stmts_of, walk_no_nested
 from ..closedform import check_expr, classify, canon
+from ..constfold import Folder, Unfoldable
 from ..core import OK, UNDECIDED, VIOLATION, AnalysisError, Repo, Report, unparse
 from ..speciallint import lint_value_keyed
 
@@ -441,6 +442,174 @@ def rule_closed_forms(repo: Repo, rep: Report) -> None:
         rep.add("CLOSED-FORM", fi, f"candidate enumeration: for mask in {unparse(x.iter)}", s, dd or "all monic polynomials of degree d, ascending", node=x)
 
 
+class _PolyModel(ast.NodeTransformer):
+    """Rewrite a BinaryPolynomial method body into integer arithmetic on the `.value` words."""
+
+    def __init__(self, operands):
+        self.operands = set(operands)
+
+    def visit_Call(self, node):
+        self.generic_visit(node)
+        nm = call_name(node) or ""
+        if nm == "isinstance" and len(node.args) == 2 and unparse(node.args[1]) in ("BinaryPolynomial", "FiniteBifieldElement"):
+            return ast.copy_location(ast.Constant(True), node)
+        if nm == "BinaryPolynomial" and len(node.args) == 1:
+            return node.args[0]
+        if nm == "BinaryPolynomial" and not node.args:
+            return ast.copy_location(ast.Constant(0), node)
+        return node
+
+    def visit_Attribute(self, node):
+        self.generic_visit(node)
+        if node.attr == "degree":
+            base = node.value
+            if isinstance(base, ast.Name) and base.id in self.operands:
+                base = ast.Attribute(value=base, attr="value", ctx=ast.Load())
+            # degree(v) = bit_length(v) - 1 (and -1 for the zero word)
+            return ast.copy_location(ast.BinOp(left=ast.Call(func=ast.Attribute(value=base, attr="bit_length", ctx=ast.Load()), args=[], keywords=[]), op=ast.Sub(), right=ast.Constant(1)), node)
+        return node
+
+    def visit_Return(self, node):
+        self.generic_visit(node)
+        if isinstance(node.value, ast.Name) and node.value.id in self.operands:
+            node.value = ast.Attribute(value=node.value, attr="value", ctx=ast.Load())
+        return node
+
+    def visit_Compare(self, node):
+        self.generic_visit(node)
+        if isinstance(node.left, ast.Name) and node.left.id in self.operands and len(node.comparators) == 1 and isinstance(node.comparators[0], ast.Name) and node.comparators[0].id in self.operands:
+            node.left = ast.Attribute(value=node.left, attr="value", ctx=ast.Load())
+            node.comparators = [ast.Attribute(value=node.comparators[0], attr="value", ctx=ast.Load())]
+        return node
+
+
+def rule_kernels(repo: Repo, rep: Report) -> None:
+    """The GF(2)[x] product, remainder and quotient are pure functions of two integer words: their source is rewritten
+    to integer arithmetic and tabulated with the checker's own evaluator against gf2.py - all pairs of words below 64
+    and pairs of long words (degrees up to 70, equal operands, one operand zero)."""
+    import copy
+
+    from ..frag import FragRaise, FragReturn, run_fragment
+
+    small = [(a, b) for a in range(0, 40) for b in range(0, 40)]
+    big_words = [(1 << 33) | 0b1011, (1 << 40) | (1 << 17) | 1, (1 << 64) | (1 << 63) | 0b111, (1 << 70) - 1, (1 << 35) | (1 << 34) | (1 << 2)]
+    big = [(a, b) for a in big_words for b in big_words + [0b1011, 0b10011, 3, 1]] + [(b, a) for a in big_words for b in (0b1011, 7, 1)]
+    specs = [
+        ("BinaryPolynomial.__mul__", "other", lambda a, b: gf2.pmul(a, b), "product"),
+        ("BinaryPolynomial.__mod__", "modulus", lambda a, b: gf2.pmod(a, b) if b else None, "remainder"),
+        ("BinaryPolynomial.div", "divisor", lambda a, b: gf2.pdivmod(a, b)[0] if b else None, "quotient"),
+    ]
+    for qual, oname, ref, what in specs:
+        fi = repo.func(ALG, qual)
+        body = [_PolyModel({"self", oname}).visit(copy.deepcopy(st)) for st in fi.body]
+        body = [ast.fix_missing_locations(b) for b in body]
+        bad = None
+        undec = None
+        count = 0
+        for a, b in small + big:
+            want = ref(a, b)
+            try:
+                run_fragment(body, {}, {"self.value": a, f"{oname}.value": b}, max_steps=4000)
+                got = "no return"
+            except FragReturn as r:
+                got = r.value
+            except FragRaise:
+                got = None
+            except Unfoldable as exc:
+                undec = str(exc)
+                break
+            count += 1
+            if got != want:
+                bad = (a, b, got, want)
+                break
+        construct = f"{qual}: {what} tabulated on {count} operand pairs"
+        if undec is not None:
+            rep.undecided("KERNEL", fi, f"{qual}: {what}", f"not evaluable with integer arithmetic ({undec})")
+        elif bad is not None:
+            a, b, got, want = bad
+            rep.violation("KERNEL", fi, construct, f"for the operands {bin(a)} and {bin(b)} the method yields {bin(got) if isinstance(got, int) else got} where the {what} in GF(2)[x] is {bin(want) if isinstance(want, int) else 'an error (zero divisor)'}", node=fi.node)
+        else:
+            rep.ok("KERNEL", fi, construct, f"equals the GF(2)[x] {what} (own arithmetic) on all of them, long words and equal operands included", node=fi.node)
+    # field exponentiation: a ** e against repeated multiplication in GF(8) and GF(16), every base, exponents 0..40
+    fi = repo.func(ALG, "FiniteBifieldElement.__pow__")
+
+    class FE:
+        __slots__ = ("v", "mod")
+
+        def __init__(self, v, mod):
+            self.v, self.mod = v, mod
+
+        def __mul__(self, o):
+            return FE(gf2.pmulmod(self.v, o.v, self.mod), self.mod)
+
+        def __eq__(self, o):
+            return isinstance(o, FE) and o.v == self.v
+
+        def __hash__(self):
+            return hash(self.v)
+
+    class _FieldModel(ast.NodeTransformer):
+        def visit_Call(self, node):
+            self.generic_visit(node)
+            nm = call_name(node) or ""
+            if nm == "FiniteBifieldElement" and len(node.args) == 2:
+                return ast.copy_location(ast.Call(func=ast.Name(id="__FE__", ctx=ast.Load()), args=[node.args[1]], keywords=[]), node)
+            if nm in ("self.field",) and len(node.args) == 1:
+                return ast.copy_location(ast.Call(func=ast.Name(id="__FE__", ctx=ast.Load()), args=[node.args[0]], keywords=[]), node)
+            return node
+
+    body = [ast.fix_missing_locations(_FieldModel().visit(copy.deepcopy(st))) for st in fi.body]
+    bad = None
+    undec = None
+    count = 0
+    for m_, mod in ((1, 0b11), (3, 0b1011), (4, 0b10011)):
+        for v in range(1 << m_):
+            for e in list(range(0, 41)) + [2 * ((1 << m_) - 1), 3 * ((1 << m_) - 1) + 1, 5 * ((1 << m_) - 1)]:
+                want = 1
+                for _ in range(e):
+                    want = gf2.pmulmod(want, v, mod)
+
+                class F2(Folder):
+                    def fold(self, node, mod=mod):
+                        if isinstance(node, ast.Call) and isinstance(node.func, ast.Name) and node.func.id == "__FE__":
+                            return FE(self.fold(node.args[0]), mod)
+                        return super().fold(node)
+
+                try:
+                    import kvstatic.frag as _fr
+
+                    saved = _fr.Folder
+                    _fr.Folder = F2
+                    try:
+                        run_fragment(body, {"self": FE(v, mod), "exponent": e}, {"self.value": v, "self.field.size": 1 << m_, "self.field.m": m_}, max_steps=4000)
+                        got = "no return"
+                    finally:
+                        _fr.Folder = saved
+                except FragReturn as r:
+                    got = r.value.v if isinstance(r.value, FE) else r.value
+                except FragRaise:
+                    got = None
+                except Unfoldable as exc:
+                    undec = str(exc)
+                    break
+                count += 1
+                if got != want:
+                    bad = (m_, v, e, got, want)
+                    break
+            if bad or undec:
+                break
+        if bad or undec:
+            break
+    construct = f"FiniteBifieldElement.__pow__ tabulated on {count} (field, base, exponent) triples"
+    if undec is not None:
+        rep.undecided("KERNEL", fi, "FiniteBifieldElement.__pow__", f"not evaluable ({undec})")
+    elif bad is not None:
+        m_, v, e, got, want = bad
+        rep.violation("KERNEL", fi, construct, f"in GF(2^{m_}) the element {v} raised to {e} gives {got}; the {e}-fold product is {want}", node=fi.node)
+    else:
+        rep.ok("KERNEL", fi, construct, "a ** e equals the e-fold product for every element of GF(2), GF(8), GF(16), exponents 0..40 and multiples of the group order (zero base included)", node=fi.node)
+
+
 def rule_special_cases(repo: Repo, rep: Report) -> None:
     mi = repo.module(ALG)
     n = 0
@@ -455,7 +624,16 @@ def run(repo: Repo, rep: Report, tier: str) -> None:
     rule_modulus_table(repo, rep)
     rule_primitive_element(repo, rep)
     rule_closed_forms(repo, rep)
+    rule_kernels(repo, rep)
     rule_special_cases(repo, rep)
+    # a kernel whose tabulation agrees with the reference on every operand pair is decided by that; an unrecognised
+    # *spelling* of its loop is then not an open question any more
+    tabulated = {o.where for o in rep.obligations if o.rule == "KERNEL" and o.status == OK}
+    for o in rep.obligations:
+        if o.status == UNDECIDED and o.rule == "CLOSED-FORM" and o.where in tabulated:
+            o.status = OK
+            o.detail = "unlisted spelling; the function's tabulation against the reference arithmetic decides it - " + o.detail
+            o.nontrivial = False
     rep.decided_clauses += [
         "every tabulated modulus is a primitive polynomial of its degree (m=1..16)",
         "the designated primitive element is a unit in every tabulated field",
